@@ -1,6 +1,7 @@
 package main
 
 import (
+	"fmt"
 	"go/token"
 	"go/types"
 	"strings"
@@ -94,6 +95,95 @@ func propC07(c *Check) {
 			okc = okc && isRet && isRejectReturn(f, r) && blockInCycle(f, cmp[0].Block())
 		}
 		c.Require(okc, "loopgate", shortName(f)+"|strictly increasing hashes", "for every adjacent pair bytes.Compare(tx[i-1], tx[i]) >= 0 rejects", "order check changed")
+		// every adjacent pair: for i = 1, 2, 3 the comparison cannot be skipped inside an iteration
+		// (index-dependent guards are evaluated for that i; all other branches are kept), and the
+		// scan starts at an index <= 1
+		if okc {
+			cl := cmp[0].Cond.(*ssa.BinOp).X.(*ssa.Call)
+			var idx ssa.Value
+			for v := cl.Call.Args[1]; v != nil; {
+				switch x := v.(type) {
+				case *ssa.Slice:
+					v = x.X
+				case *ssa.UnOp:
+					v = x.X
+				case *ssa.FieldAddr:
+					v = x.X
+				case *ssa.IndexAddr:
+					idx = x.Index
+					v = nil
+				default:
+					v = nil
+				}
+			}
+			hdr := headerOf(f, cmp[0].Block())
+			skipped := ""
+			startOK := false
+			if idx != nil && hdr != nil {
+				// scan start
+				switch x := idx.(type) {
+				case *ssa.Phi:
+					for _, e := range x.Edges {
+						if k, isC := constIntOf(e); isC && k <= 1 {
+							startOK = true
+						}
+					}
+				case *ssa.BinOp: // range index: phi(-1)+1
+					if ph, isPhi := x.X.(*ssa.Phi); isPhi && strings.HasPrefix(ph.Comment, "rangeindex") {
+						startOK = true
+					}
+				}
+				loopBlocks := naturalLoop(f, hdr)
+				for _, iv := range []int64{1, 2, 3} {
+					cut := map[Edge]bool{}
+					for _, s2 := range cmp[0].Block().Succs {
+						cut[Edge{cmp[0].Block().Index, s2.Index}] = true
+					}
+					for bi := range loopBlocks {
+						b := f.Blocks[bi]
+						iff, isIf := b.Instrs[len(b.Instrs)-1].(*ssa.If)
+						if !isIf || b == hdr {
+							continue
+						}
+						bo, isBo := iff.Cond.(*ssa.BinOp)
+						if !isBo || stripConv(bo.X) != idx {
+							continue
+						}
+						k, isC := constIntOf(stripConv(bo.Y))
+						if !isC {
+							continue
+						}
+						var val bool
+						switch bo.Op {
+						case token.GTR:
+							val = iv > k
+						case token.GEQ:
+							val = iv >= k
+						case token.LSS:
+							val = iv < k
+						case token.LEQ:
+							val = iv <= k
+						case token.EQL:
+							val = iv == k
+						case token.NEQ:
+							val = iv != k
+						default:
+							continue
+						}
+						if val {
+							cut[Edge{b.Index, b.Succs[1].Index}] = true
+						} else {
+							cut[Edge{b.Index, b.Succs[0].Index}] = true
+						}
+					}
+					body := hdr.Succs[0]
+					if body != cmp[0].Block() && reachable(f, body, cut)[hdr.Index] {
+						skipped = fmt.Sprintf("for index %d an iteration completes without comparing tx[%d] with tx[%d]", iv, iv-1, iv)
+					}
+				}
+			}
+			c.Require(idx != nil && startOK && skipped == "", "loopgate", shortName(f)+"|every adjacent pair is compared", "the order scan starts at index <= 1 and, for indexes 1, 2, 3, no iteration completes without the comparison", skipped+fmt.Sprintf(" (start ok: %v)", startOK), ifPos(w, cmp[0]))
+		}
 		// the order loop runs i = 1 .. len-1 and dominates the accepts
 		if okc {
 			dom := true
